@@ -123,6 +123,9 @@ def run(ctx):
     for k, v in refs.items():
         if v['bad']:
             ctx.violation({'kind': k[0], 'content': k[1], 'nc': k[2], 'history': []}, 'malformed escape sequences in the output of %s' % (k,))
+        if 'MEMORY:' in v.get('text', ''):
+            ctx.violation({'kind': k[0], 'content': k[1], 'nc': k[2], 'history': []},
+                          'object %s: %s' % (k[0], v['text'][v['text'].index('MEMORY:'):]))
         if k[2] and v['esc']:
             ctx.violation({'kind': k[0], 'content': k[1], 'nc': True, 'history': []}, 'no_color output of %s contains an escape character' % k[0])
     # the judge compares the stripped coloured output with the no_color reference: digest of (char, default state)
